@@ -181,6 +181,16 @@ func (w *World) execGateOp(ctx context.Context, toks []string) (bool, error) {
 		w.quiesceTimeout = old
 		w.flushLoadEnds(p, w.stores[p])
 		w.printf("settled %d quiesce=%v\n", p, ok)
+	case "failput":
+		// failput p [n] : the next n (default 1) Puts of the local-heads key on p's cache fail
+		n := 1
+		if len(toks) > 2 {
+			n = atoi(toks[2])
+		}
+		c := w.peers[atoi(toks[1])].cache
+		c.mu.Lock()
+		c.failPuts = n
+		c.mu.Unlock()
 	case "stats":
 		w.printStats(atoi(toks[1]))
 	case "holdhook":
